@@ -139,6 +139,47 @@ type cfgCase struct {
 	Cfg PCfg `json:"cfg"`
 }
 
+// checkCfgInterleaved: the JSON round trip of a configuration must not depend
+// on other JSON operations of the package that happen in between (another
+// configuration marshalled, another document parsed or rejected).
+func checkCfgInterleaved(c, other PCfg) (msg string, bad bool) {
+	defer func() {
+		if r := recover(); r != nil {
+			msg, bad = fmt.Sprintf("panic: %v", r), true
+		}
+	}()
+	cfg, ocfg := c.LZ(), other.LZ()
+	b, err := json.Marshal(cfg)
+	if err != nil {
+		return fmt.Sprintf("json.Marshal: %v", err), true
+	}
+	ob, err := json.Marshal(ocfg)
+	if err != nil {
+		return fmt.Sprintf("json.Marshal: %v", err), true
+	}
+	if _, err := lz.ParseJSON(ob); err != nil {
+		return fmt.Sprintf("ParseJSON(%s): %v", ob, err), true
+	}
+	_ = json.Unmarshal(ob, c.LZ()) // rejected unless the kinds agree
+	back, err := lz.ParseJSON(b)
+	if err != nil {
+		return fmt.Sprintf("ParseJSON(%s): %v", b, err), true
+	}
+	if !reflect.DeepEqual(back, c.LZ()) {
+		return fmt.Sprintf("after marshalling and parsing %s in between, ParseJSON(%s) = %+v, want %+v", ob, b, back, c.LZ()), true
+	}
+	oback, err := lz.ParseJSON(ob)
+	if err != nil || !reflect.DeepEqual(oback, other.LZ()) {
+		return fmt.Sprintf("ParseJSON(%s) = %+v, %v; want %+v", ob, oback, err, other.LZ()), true
+	}
+	return "", false
+}
+
+type cfgPairCase struct {
+	Cfg   PCfg `json:"cfg"`
+	Other PCfg `json:"other"`
+}
+
 func TestC20(t *testing.T) {
 	st := statsFor("C20")
 	for _, kind := range kindsFromEnv(Kinds) {
@@ -149,6 +190,11 @@ func TestC20(t *testing.T) {
 				msg, bad := checkCfgAlgebra(c)
 				if bad {
 					recordFailure("C20", kind, cfgCase{c}, msg)
+					t.Fatalf("C20 violated (%s): %s", kind, msg)
+				}
+				other := genAnyCfg(t, rapid.SampledFrom(Kinds).Draw(t, "otherKind"))
+				if msg, bad := checkCfgInterleaved(c, other); bad {
+					recordFailure("C20", kind, cfgPairCase{c, other}, msg)
 					t.Fatalf("C20 violated (%s): %s", kind, msg)
 				}
 				cl := []string{"algebra", "kind:" + kind}
@@ -372,11 +418,19 @@ func TestC20Reported(t *testing.T) {
 func init() {
 	replayers["C20"] = func(raw json.RawMessage) (string, bool, error) {
 		var probe struct {
-			Doc  *json.RawMessage `json:"doc"`
-			Text *json.RawMessage `json:"text"`
+			Doc   *json.RawMessage `json:"doc"`
+			Text  *json.RawMessage `json:"text"`
+			Other *json.RawMessage `json:"other"`
 		}
 		_ = json.Unmarshal(raw, &probe)
 		switch {
+		case probe.Other != nil:
+			var c cfgPairCase
+			if err := json.Unmarshal(raw, &c); err != nil {
+				return "", false, err
+			}
+			msg, bad := checkCfgInterleaved(c.Cfg, c.Other)
+			return msg, bad, nil
 		case probe.Doc != nil:
 			var c docCase
 			if err := json.Unmarshal(raw, &c); err != nil {
